@@ -73,8 +73,11 @@ def main():
                 rows.append((name, "PATTERN x%d" % s.count(old), {}))
                 continue
             open(p, "w").write(s.replace(old, new))
-            t = subprocess.run(["/venv/bin/python", "-m", "pytest", "-q", "-p", "no:cacheprovider", "-x", "tests"], cwd=d, env=dict(os.environ, PYTHONPATH=d), capture_output=True, text=True)
-            tests = t.stdout.strip().splitlines()[-1] if t.stdout.strip() else "?"
+            try:
+                t = subprocess.run(["/venv/bin/python", "-m", "pytest", "-q", "-p", "no:cacheprovider", "-x", "tests"], cwd=d, env=dict(os.environ, PYTHONPATH=d), capture_output=True, text=True, timeout=180)
+                tests = t.stdout.strip().splitlines()[-1] if t.stdout.strip() else "?"
+            except subprocess.TimeoutExpired:
+                tests = "unit tests hang (>180 s)"
             res = {}
             for c in checks:
                 r = subprocess.run([os.path.join(ROOT, "check"), c, "--tier", os.environ.get("TIER", "quick"), "--no-shrink"], env=dict(os.environ, LABELLA_REPO=d), capture_output=True, text=True)
